@@ -386,6 +386,9 @@ func (c *Ctx) execLookup(s *State, x *ssa.Lookup) {
 		m := c.val(s, x.X).(Sc).T
 		c.guardMapAccess(s, x, x.X, false)
 		v, has := c.mapGet(s, m, mt, c.val(s, x.Index))
+		s.seq++
+		s.trace = append(s.trace, Event{Name: "maplookup", Args: []Value{Sc{T: m}, Sc{T: c.mapKeyTerm(s, c.val(s, x.Index), mt.Key())}}, Res: Tu{E: []Value{v, Sc{T: has}}},
+			ResT: types.NewTuple(types.NewVar(0, nil, "", mt.Elem()), types.NewVar(0, nil, "", types.Typ[types.Bool])), PC: len(s.pc), Pos: posOf(c.eng.prog, x), Seq: s.seq})
 		if x.CommaOk {
 			c.setVal(s, x, Tu{E: []Value{v, Sc{T: has}}})
 		} else {
@@ -412,6 +415,8 @@ func (c *Ctx) execMapUpdate(s *State, x *ssa.MapUpdate) {
 	c.guardMapAccess(s, x, x.Map, true)
 	k := c.val(s, x.Key)
 	kt := c.mapKeyTerm(s, k, mt.Key())
+	s.seq++
+	s.trace = append(s.trace, Event{Name: "mapupdate", Args: []Value{Sc{T: m}, Sc{T: kt}, c.val(s, x.Value)}, ArgT: []types.Type{x.Map.Type(), types.Typ[types.UnsafePointer], x.Value.Type()}, PC: len(s.pc), Pos: posOf(c.eng.prog, x), Seq: s.seq})
 	ks := mapKeySort(mt.Key())
 	hn, ln := mapHeapNames(mt)
 	h := c.getHeap(s, hn, ArrSort(SInt, ArrSort(ks, SBool)))
